@@ -159,7 +159,27 @@ def showObs : MonObs → String
   | .genesis vg ig pv post => s!"vg={vg} ig={ig} pv={pv} stored={showStored post}"
   | .battery ps dflt => (if ps.isEmpty then "nopanic" else "panic:" ++ ",".intercalate ps) ++ " dflt=" ++ dflt
 
+/-- `params ghost_update …`: the same line as an `update`, executed on a context that is thrown away. The stored
+set and its verdict are what they were: they are read off the observation of an update that cannot be accepted
+(a sender that is not the authority), which shows exactly that. -/
+def ghostOf (t : List String) : Option (MonOp × Option Mod) :=
+  match t with
+  | "params" :: "ghost_update" :: r =>
+    match parseOp ("params" :: "update" :: r) with
+    | some (.update _ p, m) => some (.update "ghost-nobody" p, m)
+    | some (.updateDirect _ p, m) => some (.updateDirect "ghost-nobody" p, m)
+    | _ => none
+  | _ => none
+
+def ghostLine (s : Store) (op : MonOp) : String :=
+  match modelObs s op with
+  | .update _ post sv => s!"ghost stored={showStored post} sv={sv}"
+  | _ => "bad-op"
+
 def modelLine (s : Store) (line : String) : Store × String :=
+  match ghostOf (tokens line) with
+  | some (op, _) => (s, ghostLine s op)
+  | none =>
   match parseOp (tokens line) with
   | none => (s, "bad-op")
   | some (op, _) => (modelNext s op, showObs (modelObs s op))
@@ -219,6 +239,12 @@ def runMonitor (ops obs : Array String) : IO Unit := do
   let mut fails := 0
   let mut steps := 0
   for i in [0:ops.size] do
+    match ghostOf (tokens ops[i]!) with
+    | some (op, _) =>
+      -- a discarded update: the set the module uses is the one the monitor has tracked so far
+      if "ghost " ++ ((ghostLine st op).drop 6).toString != obs[i]! then
+        out.putStrLn s!"mon C16 FAIL clause=ghost-update-visible line={i+1}"; fails := fails + 1
+    | none =>
     match parseOp (tokens ops[i]!) with
     | none => out.putStrLn s!"mon C16 FAIL clause=parse line={i+1}"; fails := fails + 1
     | some (op, m) =>
